@@ -871,7 +871,8 @@ func (g *gen) pairCalls() {
 // deepNest builds a chain of 3-4 derive calls, each feeding the next, with
 // plugin names repeating along the chain: every link only becomes typable
 // one generation pass after the one below it.
-//   deriveSort(deriveFilter(p, deriveFilter(q, deriveKeys(m))))
+//
+//	deriveSort(deriveFilter(p, deriveFilter(q, deriveKeys(m))))
 func (g *gen) deepNest() *Call {
 	t := g.t
 	k := Basic([]string{"string", "int", "int64"}[t.Intn(3)])
